@@ -44,8 +44,16 @@ class C08(Pipeline):
     ]
 
     def execute(self, tier):
+        """Violations first: a vacuity finding of post_drive (e.g. a probe that had nothing to evaluate because a defect removed what it
+        looks at) only makes the check inconclusive when the trace is otherwise clean."""
         self._tier = tier
-        return super().execute(tier)
+        self._vacuity = []
+        violations, known, cov = super().execute(tier)
+        if not violations and self._vacuity:
+            raise vk.Broken("; ".join(self._vacuity))
+        if self._vacuity:
+            cov["vacuity_notes"] = self._vacuity
+        return violations, known, cov
 
     def drive(self, histories):
         t0 = time.time()
@@ -70,22 +78,29 @@ class C08(Pipeline):
             acts[e["act"]] = acts.get(e["act"], 0) + 1
         for a in ("Init", "Block", "Restart", "Query", "SetEnv"):
             if not acts.get(a):
-                raise vk.Broken("vacuous drive: no %s event" % a)
+                self._vacuity.append("vacuous drive: no %s event" % a)
         for k in QUERY_KINDS:
             n = sum(e["n"] for e in events if e["act"] == "Query" and e["args"].get("k") == k)
             if n == 0:
-                raise vk.Broken("vacuous drive: probe %s never evaluated anything" % k)
+                self._vacuity.append("vacuous drive: probe %s never evaluated anything" % k)
         blocks = [e for e in events if e["act"] == "Block"]
+        if not any(e["ff"] and e["args"]["hostile"] for e in blocks):
+            self._vacuity.append("vacuous drive: no block with hostile status updates under the feature-flag variable")
+        split = sum(1 for e in blocks if any(t in e["args"]["txs"] for t in ("refsplit", "balsplit", "txsplit", "attestsplit3", "attestsplit")))
+        if split == 0:
+            self._vacuity.append("vacuous drive: no block with contentious evidence")
         nok = sum(e["nok"] for e in blocks)
         ntx = sum(e["ntx"] for e in blocks)
         if nok == 0 or nok == ntx:
-            raise vk.Broken("vacuous drive: %d of %d transactions succeeded (both outcomes are needed)" % (nok, ntx))
+            self._vacuity.append("vacuous drive: %d of %d transactions succeeded (both outcomes are needed)" % (nok, ntx))
         if len({e["whash"] for e in events if e["act"] == "Init"}) != 1:
             vk.log("prepared worlds differ between driver processes (C08.WorldAgrees will report it)")
         if not any(e["ff"] and "statusbad" in e["args"]["txs"] for e in blocks):
-            raise vk.Broken("vacuous drive: no block with an out-of-range status update under the feature-flag variable")
+            self._vacuity.append("vacuous drive: no block with an out-of-range status update under the feature-flag variable")
         self._cov = {
             "blocks_compared": len(blocks),
+            "blocks_with_contentious_evidence": split,
+            "hostile_status_updates_under_feature_flag": sum(len(e["args"]["hostile"]) for e in blocks if e["ff"]),
             "transactions_compared": ntx,
             "transactions_succeeded": nok,
             "perturbations": {a: acts.get(a, 0) for a in ("Restart", "Query", "SetEnv", "UnsetEnv")},
